@@ -11,7 +11,7 @@
     stack|axis|shapes|chunksizes
     region|srcLen|srcChunk|tgtLen|tgtChunk|start|stop|step
     qr|ndim|reduced(0/1)|floating(0/1)|colBlocks|shortRow(0/1)
-    reduce|ndim|axes or n|n, int:<k>, dict, other
+    reduce|ndim|axes or n|n, int:<k>, dict:<values of the reduced axes>, other
     bcast|xshape|shape
     roll|ndim|int, tuple:<k>, other|axes or n
     permute|ndim|axes
@@ -88,6 +88,7 @@ def handle (line : String) : String :=
       | ["n"] => .none
       | ["int", k] => .int ((parseNat? k).getD 0)
       | ["dict"] => .dict []
+      | ["dict", vs] => .dict ((parseNats vs).map (fun v => (0, v)))
       | _ => .other
     (validateReduce ((parseNat? nd).getD 0) (optInts axes) sev).show
   | ["bcast", xs, sh] => (validateBroadcastTo (parseNats xs) (parseNats sh)).show
